@@ -29,6 +29,7 @@ def known(rep):
 def run(rep, tier, seed):
     quick = tier == 'quick'
     flow.run_gen(rep, {'Adjoint'}, seed, 2 if quick else 12)
+    flow.run_selftest(rep, seed, 30 if tier == 'quick' else 300)
     flow.run_proofs(rep, PROOFS, extra_scan=['Tsv.Gen.Adjoint'])
     fails, st = oadj.c11_search(random.Random(seed), 24 if quick else 600)
     rep.ob('oracle:adjoint-vector-fields-vs-independent-prescription-on-real-AdjointSDE',
